@@ -4,9 +4,12 @@
            ops  = [0 m]     one Balance call, m = 4 WlcSmooth, m = 3 WlcSimple  -> observation id (-1 = error)
                 | [1 id n]  connNum of backend id := n                            -> observation 0
                 | [2 id b]  SetAvail(b) on backend id                             -> observation 0
-   output: list of the per-operation observations. *)
+   output: list of the per-operation observations.
+         | [8 params subs ops]   BalanceGslb.Balance histories, same encoding and model as RunC03.v ([mode rmax cross],
+           sub-clusters with backends, Balance / SetAvail / connNum operations; observation [code sub bid retry cross ecode]) *)
 From Coq Require Import List ZArith Bool.
 From Bfe Require Import lib.Val model.Swrr model.Wlc.
+From Bfe Require model.Gslb run.RunC03.
 Import ListNotations.
 Open Scope Z_scope.
 
@@ -31,22 +34,37 @@ Definition dec_in (v : val) : option (list (Z * Z) * list wop) :=
   | _ => None
   end.
 
+Definition dec8 (v : val) :=
+  match v with VL [VZ 8; p; ss; ops] => RunC03.dec_in (VL [p; ss; ops]) | _ => None end.
+
 Definition run_C04 (i : val) : val :=
   match dec_in i with
   | Some (conf, ops) => vLZ (wrun (winit conf) ops)
-  | None => VErr 0
+  | None => match dec8 i with
+            | Some (p, conf, ops) => VL (map RunC03.enc_obs (Gslb.grun p (Gslb.g_init conf) ops))
+            | None => VErr 0
+            end
   end.
 (* WlcSmooth: trace validation (the pick holds a maximal credit among the tied candidates, model state
    advanced with the implementation's picks); WlcSimple: membership in the candidate list *)
 Definition agree_C04 (i o : val) : bool :=
   match dec_in i, as_LZ o with
   | Some (conf, ops), Some obs => wcheck (winit conf) ops obs
-  | _, _ => false
+  | Some _, None => false
+  | None, _ => match dec8 i, RunC03.dec_out o with
+               | Some (p, conf, ops), Some os => Gslb.gcheck p (Gslb.g_init conf) ops os
+               | _, _ => false
+               end
   end.
 (* the property: every pick is an eligible backend minimising connections/weight; error iff none eligible *)
 Definition prop_C04 (i o : val) : bool :=
   match dec_in i, as_LZ o with
   | Some (conf, ops), Some obs => wspec (wc_init conf) ops obs
-  | _, _ => false
+  | Some _, None => false
+  (* through BalanceGslb: the returned backend is minimal (WLC) / the hash owner (sticky) in the reported sub-cluster *)
+  | None, _ => match dec8 i, RunC03.dec_out o with
+               | Some (p, conf, ops), Some os => Gslb.gspec8 p (Gslb.g_init conf) ops os
+               | _, _ => false
+               end
   end.
 Definition kf_C04 (i : val) : Z := 0.
